@@ -7,7 +7,9 @@ import (
 	"fmt"
 	"math/rand"
 	"sort"
+	"sync"
 	"time"
+	"verifharness/kit/env"
 
 	"github.com/sharedcode/sop"
 	"github.com/sharedcode/sop/btree"
@@ -298,8 +300,12 @@ func Gen(rnd *rand.Rand, shape string, m Model, existing []Spec, tag string) Pro
 		return ks
 	}
 	newKey := func(s string, used map[string]bool) string {
-		for {
-			k := Key(rnd.Intn(400))
+		// keys come from k0000..k0399; a long history can use that range up: widen it instead of spinning
+		for tries, space := 0, 400; ; tries++ {
+			if tries > 0 && tries%2000 == 0 {
+				space *= 4
+			}
+			k := Key(rnd.Intn(space))
 			if _, ok := m[s][k]; !ok && !used[s+k] {
 				used[s+k] = true
 				return k
@@ -462,4 +468,27 @@ func Gen(rnd *rand.Rand, shape string, m Model, existing []Spec, tag string) Pro
 	}
 	p.Ops = valid
 	return p
+}
+
+var (
+	probeMu  sync.Mutex
+	probeDir string
+)
+
+// SlowMachine times one small commit on a private scratch store (created on first use). It reports
+// true when even that takes more than 300 ms (a healthy commit takes ~30 ms): a judged step that
+// missed a seconds-sized deadline at such a moment gets no verdict instead of an error.
+func SlowMachine() bool {
+	probeMu.Lock()
+	defer probeMu.Unlock()
+	if probeDir == "" {
+		probeDir = env.Scratch("probe")
+		p := Program{Create: []Spec{{Name: "probe", Slot: 4, Profile: sopx.InNode}}, Ops: []Op{{Store: "probe", Kind: "add", K: "k", V: "v"}}}
+		if err := Commit(Public{DB: sopx.NewDB(probeDir)}, p, time.Minute); err != nil {
+			return true
+		}
+	}
+	t0 := time.Now()
+	err := Commit(Public{DB: sopx.NewDB(probeDir)}, Program{Ops: []Op{{Store: "probe", Kind: "upsert", K: "k", V: fmt.Sprint(t0.UnixNano())}}}, time.Minute)
+	return err != nil || time.Since(t0) > 300*time.Millisecond
 }
